@@ -127,6 +127,17 @@ def run(ctx):
                     if "_is_descendant" in t or " is not " in t or " is " in t and "state" in t:
                         continue
                     extra.append(t)
+        # ... and nothing but descendants: the comprehension over the configuration carries a positive descendant test
+        from sa.util import canon_atom as _ca
+        for y in comps:
+            if "_active_state_nodes" not in norm(y.generators[0].iter):
+                continue
+            var_ = norm(y.generators[0].target)
+            pos = [a for cnd in y.generators[0].ifs for a, pol in __import__("sa.cfg", fromlist=["split_atoms"]).split_atoms(cnd, True)
+                   if pol and isinstance(a, ast.Call) and norm(a.func).endswith("_is_descendant") and a.args and norm(a.args[0]) == var_]
+            c.ob("R8", bool(pos), rec_f, "record-holds-only-descendants", "only active descendants of the history owner are remembered" if pos else
+                 f"the remembered configuration is no longer restricted by a positive '_is_descendant({var_}, <owner>)' test: states of other branches "
+                 f"(sibling regions, the owner's ancestors) are remembered and re-entered by a later history transition", y)
         ok = not extra and n_assign == 1
         c.ob("R8", ok, rec_f, "record-keeps-all-descendants",
              "the remembered configuration is every active descendant of the history owner" if ok else
